@@ -26,7 +26,9 @@ class RecursiveTimedMutex : public RecursiveMutex {
   bool TimedWaitHelper(const Timeout& timeout) {
     bool r = true;
     if (_occupied_count != 0 && _owner_id != fault::Scheduler::GetId()) {
-      r = _queue.Wait(timeout) == WaitStatus::Ready;
+      // another fiber may have taken the mutex between the notify and our resumption: then the attempt fails
+      r = _queue.Wait(timeout) == WaitStatus::Ready &&
+          !(_occupied_count != 0 && _owner_id != fault::Scheduler::GetId());
     }
     YACLIB_DEBUG(r && (_occupied_count != 0 && _owner_id != fault::Scheduler::GetId()),
                  "about to be locked twice and not in a good way");
